@@ -509,7 +509,16 @@ impl RuleLT09 {
                             None,
                         );
 
-                    if !to_delete.is_empty() {
+                    // The whitespace found this way is the indent in front of the select
+                    // target only when the target is the last child of the clause. With a
+                    // trailing comma or an unparsable remainder after the target it lies
+                    // behind the target: moving "everything up to it" would move a second
+                    // copy of the target itself.
+                    let before_target = to_delete.last().is_some_and(|seg| {
+                        select_children.index(seg) < select_targets_info.first_select_target_idx
+                    });
+
+                    if !to_delete.is_empty() && before_target {
                         let add_newline =
                             to_delete.iter().any(|it| it.is_type(SyntaxKind::Newline));
                         let local_fixes = fixes_for_move_after_select_clause(
